@@ -60,7 +60,8 @@ class Recorder:
         return ev
 
 
-KINDS = ["sign_hash", "signerHeartbeat", "getPubKey", "blockchainState", "advanceBlockchain", "sign_legacy"]
+KINDS = ["sign_hash", "signerHeartbeat", "getPubKey", "blockchainState", "advanceBlockchain", "sign_legacy",
+         "updateAncestorBlock"]
 
 
 def make_request(rid, kind, rng):
@@ -71,6 +72,12 @@ def make_request(rid, kind, rng):
 
 def reply_owner(rid, kind, st, reply, device, all_reqs):
     """Which request does this reply belong to? (classification of bytes; TLC compares with rid)"""
+    if kind == "advanceBlockchain" and isinstance(reply, dict):
+        # the reply that belongs to this request says what the device did with *its* blocks: partial success when
+        # the device (by its policy for this run) stops after the first block, total success otherwise
+        stop = getattr(getattr(device, "block_policy", None), "stop_after", None)
+        want = 1 if (stop is not None and stop[1] == "partial") else 0
+        return rid if reply.get("errorcode") == want else 0
     if not isinstance(reply, dict) or reply.get("errorcode") != 0:
         return 0
     if kind == "sign_hash":
@@ -151,6 +158,9 @@ def run_threads(m, rec, n_clients, n_reqs, rng, base_id):
             allr[rid] = (kind, st)
     delays = random.Random(rng.random())
     m.device.exchange_delay = lambda: time.sleep(delays.random() * 0.0015)
+    from ..simdev import FaithfulBlockPolicy
+    # in half of the runs the device reports partial success after the first block of every advance
+    m.device.block_policy = FaithfulBlockPolicy(stop_after=(1, "partial")) if rng.random() < 0.5 else FaithfulBlockPolicy()
     errors = []
 
     def client(c):
@@ -169,6 +179,7 @@ def run_threads(m, rec, n_clients, n_reqs, rng, base_id):
     for t in ths:
         t.join(120)
     m.device.exchange_delay = None
+    m.device.block_policy = FaithfulBlockPolicy()
     return rec.take(), errors
 
 
@@ -496,6 +507,45 @@ def run_ui_heartbeat_mix(m, rec, rng, base_id, rounds=3, others=4):
     return rec.take()
 
 
+def run_ancestor_first(ctx, base_id):
+    """A fresh manager whose first block command is an ancestor update, then clients whose advances end in partial
+    success: what one client's command made the manager set up must not shape the reply to another's."""
+    from ..simdev import FaithfulBlockPolicy
+    from ..transport import install
+    m = LiveManager(2)
+    rec = Recorder(m)
+    rng = random.Random("ancfirst:%d" % ctx.seed)
+    allr = {}
+    try:
+        install(m.world)
+        req, st = make_request(base_id + 1, "updateAncestorBlock", rng)
+        allr[base_id + 1] = ("updateAncestorBlock", st)
+        ev, data = m.request(json.dumps(req).encode())
+        m.device.block_policy = FaithfulBlockPolicy(stop_after=(1, "partial"))
+
+        def client(rid, kind, req, st):
+            try:
+                s = socket.create_connection(m.addr, timeout=10)
+                s.sendall(json.dumps(req).encode() + b"\n")
+                reply = read_reply(s, 60)
+            except OSError:
+                reply = None
+            rec.emit({"k": "got", "r": rid, "t": 0, "m": reply_owner(rid, kind, st, reply, m.device, allr)})
+        ths = []
+        for i, kind in enumerate(["advanceBlockchain", "sign_hash", "advanceBlockchain", "blockchainState"]):
+            rid = base_id + 10 + i
+            rq, st = make_request(rid, kind, rng)
+            allr[rid] = (kind, st)
+            ths.append(threading.Thread(target=client, args=(rid, kind, rq, st)))
+        for t in ths:
+            t.start()
+        for t in ths:
+            t.join(60)
+        return rec.take()
+    finally:
+        m.stop()
+
+
 def run_shutdown_with_backlog(ctx, base_id, others=5):
     """A request ends in a manager shutdown (the device answers a status word outside every known range) while
     other clients are already connected and waiting. Whatever happens to them - the unchanged manager simply
@@ -657,6 +707,9 @@ def run(ctx):
         traces.append({"id": tid, "ev": run_ui_heartbeat_mix(m, rec, random.Random("uihb:%d" % ctx.seed), 990000)})
         info[tid] = {"scenario": "uiHeartbeat with 4 clients queued behind it, 3 rounds"}
         res.coverage["ui_heartbeat_mix_rounds"] = 3
+        tid = len(traces) + 1
+        traces.append({"id": tid, "ev": run_ancestor_first(ctx, 995000)})
+        info[tid] = {"scenario": "fresh manager: ancestor update first, then advances ending in partial success"}
         ev_sd, fired, nshut = run_shutdown_with_backlog(ctx, 980000)
         if not fired:
             raise core.MachineryError("shutdown scenario: the poisoned exchange was never reached")
